@@ -319,12 +319,32 @@ def run(run):
     for depth in (30, 60, 120):
         ladders.append({"lib": [["A", "[{{{1|}}}]", False]], "page": "{{a|{{#if:x|{{#switch:q|q=" * depth + "z" + "}}}}}}" * depth,
                         "opts": {}, "title": "Tt", "_timeout": 60})
-    res = lib.run_impl("expandlib", ladders, shards=lib.NCPU)
+    # deep chains that pass through a re-entrant expand(): a Lua function that recurses through frame:preprocess /
+    # frame:expandTemplate, and a template_fn hook that expands the next template of a long chain itself.  The depth limit
+    # counts all of it: the chain ends in the in-band error with a recorded message, nothing is raised.
+    for levels in (60, 200):
+        for api in ("frame:preprocess('{{#invoke:deep|f|' .. (n + 1) .. '}}')", "frame:expandTemplate{title = 'via', args = {n + 1}}"):
+            deep = ("local e = {}\nfunction e.f(frame)\n local n = tonumber(frame.args[1]) or 0\n if n >= %d then return 'END' end\n"
+                    " return %s\nend\nreturn e" % (levels, api))
+            ladders.append({"lib": [["Via", "{{#invoke:deep|f|{{{1}}}}}", False]], "page": "{{#invoke:deep|f|0}}", "opts": {}, "title": "Tt",
+                            "modules": {"deep": deep}, "_timeout": 90, "_deep": True})
+    for n in (150, 400):
+        ladders.append({"lib": [["C%d" % i, "b%d" % i, False] for i in range(n)], "page": "{{c0}}",
+                        "opts": {"tfn": True, "tfn_reenter_hooked": True, "tfn_reenter": {"c%d" % i: "{{c%d}}" % (i + 1) for i in range(n - 1)}},
+                        "title": "Tt", "_timeout": 90, "_deep": True})
+    res = lib.run_impl("expandlib", [{k: v for k, v in c.items() if k != "_deep"} for c in ladders], shards=lib.NCPU)
     for c, r in zip(ladders, res):
-        run.count(["ladder", c["page"][:40], len(c["page"])], True, "ladder")
+        run.count(["ladder", c["page"][:40], len(c["page"]), len(c["lib"]), sorted(c.get("modules", {}).items())], True, "ladder")
         if r.get("outcome") != "ok":
             run.property_failure("ladder:%s:%s" % (r.get("outcome"), r.get("exc", "")), "nesting ladder did not return: %r" % (r,),
-                                 {k: c[k] for k in ("lib", "page", "opts", "title")})
+                                 {k: c[k] for k in ("lib", "page", "opts", "title") + (("modules",) if "modules" in c else ())})
+        elif c.get("_deep") and not any("too deep" in m or "loop" in m.lower() for k_ in ("errors", "warnings")
+                                        for m in (r.get("msgs") or {}).get(k_, [])):
+            # (cut by the depth limit or, when the chain repeats a pattern, by loop detection: either way in-band and recorded)
+            run.property_failure("ladder:deep-reentrant-chain-not-cut",
+                                 "a chain deeper than the limit that passes through re-entrant expand() calls ended without the "
+                                 "in-band depth (or loop) error being recorded: output %r, messages %r" % (r.get("out", "")[:120], r.get("msgs")),
+                                 {k: c[k] for k in ("lib", "page", "opts", "title") + (("modules",) if "modules" in c else ())})
 
 
 def run_cyclic(run, cases):
